@@ -1545,6 +1545,7 @@ package log
 //@ spec fun canonKey(s string) bool = len(s) > 0 && !isUpperB(s[0]) && (forall j int :: 1 <= j && j < len(s) ==> !isSepB(s[j]) && (s[j-1] == '.' ==> !isUpperB(s[j])))
 
 //@ func toCamelKey
+//@   pure_const
 //@   modifies nothing
 //@   nopanic[C15]
 //@   ensures[C15:empty] key == "" ==> result == ""
@@ -1616,3 +1617,21 @@ package log
 //@   ensures[C02:malformed-wildcard-is-an-error] t != "" && malformedWildcard(t) ==> !result && freevar(0) == 1 && freevar(3) != nil && tags == tags0
 //@   ensures[C02:entry-is-recorded-trimmed] t != "" && !malformedWildcard(t) ==> result && freevar(0) == 0 && len(tags) == len(tags0) + 1 && tags[len(tags0)] == t && freevar(3) == old(freevar(3))
 //@   ensures[C02:earlier-entries-kept] t != "" && !malformedWildcard(t) ==> (forall k int :: 0 <= k && k < len(tags0) ==> tags[k] == old(tags[k]))
+
+// ---- C15: from the configuration map to the storage: every key is stored under its camelCase spelling ----------
+// ("name!" entries are expanded: the keys of the parsed expression, camel-cased, below the camel-cased name)
+//@ spec fun inlineKey(k string) bool = has_suffix(toCamelKey(k), "!")
+//@ spec fun inlineBase(k string) string = toCamelKey(k)[:len(toCamelKey(k))-1]
+
+// Stated per iteration: expr.Parse is specified as possibly changing everything (the ANTLR runtime is not
+// under contract), so facts about the storage are not carried across the iterations that call it; Set never
+// removes a key (assumed), so what an iteration stores stays stored.
+//@ func toStorage
+//@   requires m != nil
+//@   modifies everything
+//@   ensures[C15:storage-or-error] (result1 != nil ==> result0 == nil) && (result1 == nil ==> result0 != nil)
+//@   loop 1 invariant[C15:storage] s != nil
+//@   loop 1 iteration[C15:flat-key-stored-under-its-camel-spelling] !inlineKey($key) ==> stHas[s][toCamelKey($key)] && stVal[s][toCamelKey($key)] == $val
+//@   loop 1 iteration[C15:inline-keys-stored-below-the-camel-cased-name] inlineKey($key) ==> (forall k2 string :: subMap != nil && has(subMap, k2) ==> stHas[s][inlineBase($key) + "." + toCamelKey(k2)])
+//@   loop 2 invariant[C15:storage] s != nil && inlineKey($key1)
+//@   loop 2 invariant[C15:inline-keys-so-far] forall k2 string :: $visited[k2] ==> stHas[s][inlineBase($key1) + "." + toCamelKey(k2)]
